@@ -33,14 +33,21 @@ SSExecs  == {[t |-> "SSExec", chain |-> c, members |-> m, world |-> "plain"] : c
 CCExecs  == {[t |-> "CCExec", chain |-> c, world |-> "plain"] : c \in Chains}
 Sends    == {[t |-> "Send", chain |-> c, amt |-> a, fee |-> f, world |-> "plain"] : c \in Chains, a \in {"one", "small", "p255"}, f \in {"zero", "one", "above"}}
 
-Cases == Deposits \cup ToHubs \cup Execs \cup SSExecs \cup CCExecs \cup Sends
+\* two forwarded deposits that meet in one destination pool (and then in one batch): sums over several pool entries / batch
+\* members (fees of the next batch, fees and commissions of an executed batch) see two 2^255-scale values at once.
+\* prior: a batch of the same token already exists when they arrive; exec: the batch that holds both is reported executed
+Pairs    == {[t |-> "Pair", chain |-> c, amt |-> a, fee |-> f, prior |-> pr, same |-> sb, exec |-> x, world |-> w] :
+               c \in Chains, a \in {"p255plus", "small"}, f \in {"p255", "one"}, pr \in BOOLEAN, sb \in BOOLEAN, x \in BOOLEAN,
+               w \in {"plain", "keys+prices"}}
+
+Cases == Deposits \cup ToHubs \cup Execs \cup SSExecs \cup CCExecs \cup Sends \cup Pairs
 
 VARIABLE case
 Init == case \in Cases
 Next == UNCHANGED case
 Spec == Init /\ [][Next]_case
 \* every case is well formed (all fields drawn from the declared classes); the behavioural claim is checked on the real code
-WellFormed == case.t \in {"Deposit", "ToHub", "Exec", "SSExec", "CCExec", "Send"} /\ case.chain \in Chains
+WellFormed == case.t \in {"Deposit", "ToHub", "Exec", "SSExec", "CCExec", "Send", "Pair"} /\ case.chain \in Chains
 
 ASSUME IF "VERIF_OUT" \in DOMAIN IOEnv THEN JsonSerialize(IOEnv.VERIF_OUT, SetToSeq(Cases)) ELSE TRUE
 =============================================================================
